@@ -95,4 +95,19 @@ def Functor.apply (F : Functor) (d : Diagram) : Except Err Diagram :=
   | .error e => .error e
   | .ok t => F.loop d.dom (Diagram.id t) d.boxes d.offsets
 
+/-! ### Re-indexing of slice bounds (specification helper of the C04 slice law, not code in /repo)
+
+   `F(d[i:j]) == F(d)[i':j']` with `i' = Σ_{k<i} len(F(d.boxes[k]).boxes)`: the harness computes the
+   same numbers as `lens = [len(F(bx).boxes) for bx in d.boxes]; sum(lens[:i])`. -/
+
+/-- Number of boxes of the image of one box (`0` if the image raises). -/
+def Functor.boxLen (F : Functor) (b : Box) : Nat :=
+  match F.box b with
+  | .ok x => x.boxes.length
+  | .error _ => 0
+
+/-- `sum(len(F(b).boxes) for b in boxes[:k])`. -/
+def Functor.imgIdx (F : Functor) (boxes : List Box) (k : Nat) : Nat :=
+  ((boxes.take k).map F.boxLen).sum
+
 end DV
